@@ -349,6 +349,11 @@ def run(ctx, deps=True):
     from .signer import agreement
 
     agreement(ctx, "R4")
+    # "the shipped fixtures and what earlier releases signed still verify": both sides use the one
+    # serializer in its published configuration (C07-R1)
+    from .c07 import serializer_config
+
+    serializer_config(ctx.sub("DEP-C07"), published=True)
 
     # ---- "... and everything built on it": the callers must hand the verifier exactly the keys and
     # threshold of the rule they implement, else sufficient signers are turned away one level up
